@@ -24,8 +24,9 @@ type Cfg struct {
 	Maxpend    int   `json:"Maxpend"`
 	Dotu       bool  `json:"Dotu"`
 	Handshake  bool  `json:"Handshake"`
-	Bystander  bool  `json:"Bystander"` // a second connection with one attached fid
-	FixClose   bool  `json:"FixClose"`  // the tree has the close(conn.done) repair: Respond never blocks after close
+	Bystander  bool  `json:"Bystander"`  // a second connection with one attached fid
+	FixClose   bool  `json:"FixClose"`   // the tree has the close(conn.done) repair: Respond never blocks after close
+	ProcessOps bool  `json:"ProcessOps"` // the implementation overrides SrvReqProcess / SrvReqRespond (delegating)
 }
 
 type Behaviour struct {
@@ -664,8 +665,13 @@ func RunCase(t *testing.T, lg *go9p.Logger, cfg Cfg, seed int64, fn func(k *Case
 		c.Ops = &Ops{C: c}
 		srv := &go9p.Srv{Log: lg, Dotu: cfg.Dotu, Maxpend: cfg.Maxpend, Msize: 8192}
 		var ops any = c.Ops
-		if cfg.HasFlushOp {
+		switch {
+		case cfg.HasFlushOp && cfg.ProcessOps:
+			ops = OpsPF{OpsF{c.Ops}}
+		case cfg.HasFlushOp:
 			ops = OpsF{c.Ops}
+		case cfg.ProcessOps:
+			ops = OpsP{c.Ops}
 		}
 		c.Start(srv, ops)
 		defer c.Stop()
